@@ -376,6 +376,38 @@ Proof.
   destruct (zmem c wl); split; intros; try reflexivity; discriminate.
 Qed.
 
+(** claim on behalf: the rewards go to the common, non-zero original owner of all paid positions,
+    and the caller is authorised by exactly that owner *)
+Lemma claim_original_owner_spec : forall owners acc u,
+  match acc with Some a => a <> 0 | None => True end ->
+  claim_original_owner owners acc = Ok u ->
+  u <> 0 /\ (forall o, In o owners -> o = u) /\
+  match acc with Some a => a = u | None => owners <> [] end.
+Proof.
+  induction owners as [|o t IH]; intros acc u Hacc H; simpl in H.
+  - destruct acc as [a|]; [|discriminate]. inversion H; subst.
+    split; [exact Hacc|]. split; [intros o []|reflexivity].
+  - destruct (o =? 0) eqn:E0; simpl in H; [discriminate|]. apply Z.eqb_neq in E0.
+    destruct acc as [a|].
+    + destruct (a =? o) eqn:Ea; [|discriminate]. apply Z.eqb_eq in Ea. subst o.
+      destruct (IH (Some a) u Hacc H) as (Hu & Hall & Heq). split; [exact Hu|]. split; [|exact Heq].
+      intros o' [<-|Hin]; [exact Heq | apply Hall; exact Hin].
+    + destruct (IH (Some o) u E0 H) as (Hu & Hall & Heq). split; [exact Hu|]. split; [|discriminate].
+      intros o' [<-|Hin]; [exact Heq | apply Hall; exact Hin].
+Qed.
+
+Theorem claim_on_behalf_to_owner : forall h caller owners reward sends,
+  claim_on_behalf h caller owners reward = Ok sends ->
+  exists u, sends = [(u, reward)] /\ u <> 0 /\ owners <> [] /\ (forall o, In o owners -> o = u) /\
+            is_whitelisted h u caller = true.
+Proof.
+  intros h caller owners reward sends H. unfold claim_on_behalf in H.
+  destruct (claim_original_owner owners None) as [u|] eqn:E; simpl in H; [|discriminate].
+  destruct (is_whitelisted h u caller) eqn:Ew; [|discriminate]. inversion H; subst.
+  destruct (claim_original_owner_spec owners None u I E) as (Hu & Hall & Hne).
+  exists u. repeat split; assumption.
+Qed.
+
 (** ================================================================== Part D: pause rules on the models *)
 
 Definition pair_user_fund_op (op : pop) : bool :=
